@@ -8,6 +8,16 @@ TB = ("Trusted: Lean 4.33 kernel; axioms propext, Classical.choice, Quot.sound o
       "(harness/*.py executes the same cases on the real library and on the compiled model driver pvdrv and compares). ")
 
 CHECKS = {
+ "C10": dict(
+   text="Lean theorems over the executable model of RangelistModel and the bin models: compact preserves the denoted value set for every input list and yields strictly separated ascending ranges (compact_denotes, compact_sorted); intersect removes exactly the exclusion values for every target list and every well-formed exclusion list (subtract_denotes, via trimOne/trimAll/subtractGo invariants); after any sample sequence each regular/ignore/illegal counter equals the number of samples taken while iff held that the bin models report for that flat index, iff-off samples and values outside every bin change nothing (sample_counts, sample_counts_ignore, by induction over the sample list); a leaf bin reports a hit exactly on its value set (leaf_hit_iff). The partition theorem for mk_collection is not proved yet; mk_collection is tied to the Spec (equal-size consecutive chunks, remainder last) by an exhaustive sweep over all sorted disjoint range lists on a small domain x 1..8 bins, and every generated coverpoint (bins, bin arrays, auto-bins, enum, ignore/illegal) is sampled with every value of its type and compared three ways: implementation vs model vs Spec.",
+   note=TB + "Spec (Pyvsc/Spec/Bins.lean: specVals, chunks, countHits) is the property text as definitions. Bin specification forms exercised are listed in the evidence; the programmatic list-of-lists form of bin_array is not.",
+   technique="Lean 4 proof over executable model + differential correspondence + exhaustive small-domain sweeps",
+   design="6 C10"),
+ "C19": dict(
+   text="Lean theorems: str2bin means digit-wise matching for every accepted pattern string in all three bases with x/X/?/_ at any position (str2bin_spec, induction over the digit list with a bit-level combine lemma); a single wildcard bin is hit iff some pattern agrees on every care bit (wcHit_iff); merging expanded values into ranges and collapsing overlapping/adjacent expansions never loses or adds a value (pushVals_denotes, collapse_denotes). The scatter step of valmask2binlist (counter bits into wildcard groups) is not proved; it is tied to the Spec exhaustively over every (value, mask) pair up to 8 bits (thorough) and coverpoints with single/array wildcard bins are sampled with every value of their type.",
+   note=TB + "F12 (leading wildcard digits are not expanded by wildcard_bin_array) is a recorded known finding; it is only accepted when implementation and model agree and the missing values are exactly those above the highest care bit.",
+   technique="Lean 4 proof over executable model + exhaustive differential correspondence",
+   design="6 C19"),
  "C18": dict(
    text="Lean theorems for all widths w>=1, both signs and all integers: every scalar write path followed by every scalar read path, and every list write path followed by every list read path, yields Spec.wrap w s v, which lies in the declared type (scalar_read_after_write, list_read_after_write, paths_agree, wrap_inType, wrap_of_inType, readBack_spec); part-select read returns bits[hi:lo], part-select/bit write sets exactly those bits and changes no bit below lo or above hi (partWrite_spec, bitWrite_spec, partWrite_inType); enum value<->enumerator round trip (enum_roundtrip). The model functions are compared with types.py / enum_info.py on every run: exhaustively for small widths over [-2^(w+1),2^(w+1)] x all write x read paths, boundary values up to width 64, all part-select bounds for widths <= 8.",
    note=TB + "Python's unbounded-int &, ~, <<, >> are modelled arithmetically (mod/div by powers of two); that identity is what the exhaustive sweep validates. Part-select writes wider than the field are outside the judged domain.",
